@@ -145,7 +145,7 @@ def status_product():
     the exit} x {flooding (reader paused), quiet} x every exit path"""
     out = []
     for b in ("flood", "well"):
-        for v in ({}, {"on_term": 0}, {"on_term": 3}, {"self_exit": [0.25, 0]}, {"self_exit": [0.25, 3]}):
+        for v in ({}, {"on_term": 0}, {"on_term": 3}, {"self_exit": 0}, {"self_exit": 3}):
             for p in H.PATHS:
                 out.append(_case(b, p, "before", **v))
                 if b == "well":
@@ -153,6 +153,21 @@ def status_product():
     for k in (0, 1, 2):                                       # early exits with status 0 / non-zero
         for code in (0, 3):
             out.append(_case("exit_at", "normal", "after", k=k, code=code))
+    return out
+
+
+def stderr_product():
+    """the child's THIRD pipe: a child that floods its stderr all the time, or writes a long report there when it is
+    told to terminate — with stderr passed through (default) and with the quiet-logging environments that make the
+    client handle stderr itself; every exit path"""
+    out = []
+    for sf in ("always", "on_term"):
+        for env in (None, "quiet", "quiet2"):
+            for p in H.PATHS:
+                out.append(_case("well", p, "before", stderr_flood=sf, **({"env": env} if env else {})))
+                out.append(_case("well", p, "after", stderr_flood=sf, **({"env": env} if env else {})))
+            out.append(_case("ignore_term", "normal", "after", stderr_flood="always", **({"env": env} if env else {})))
+            out.append(_case("flood", "normal", "before", stderr_flood=sf, **({"env": env} if env else {})))
     return out
 
 
@@ -255,10 +270,15 @@ DIRECTED = [
     _case("flood", "normal", "before", on_term=0),
     _case("flood", "timeout", "before", on_term=0),
     _case("flood", "exception", "before", on_term=3),
-    _case("flood", "normal", "before", self_exit=[0.25, 0]),
-    _case("flood", "cancel", "before", self_exit=[0.25, 3]),
+    _case("flood", "normal", "before", self_exit=0),
+    _case("flood", "cancel", "before", self_exit=3),
     _case("well", "cancel", "after", on_term=0),
     _case("exit_at", "normal", "after", k=2, code=0),
+    # the stderr pipe
+    _case("well", "normal", "before", stderr_flood="on_term", env="quiet"),
+    _case("well", "cancel", "after", stderr_flood="always", env="quiet"),
+    _case("well", "exception", "before", stderr_flood="on_term"),
+    _case("well", "timeout", "before", stderr_flood="always", env="quiet2"),
     # several clients alive at once, the same request id on every connection
     {"behaviour": "well", "path": "normal", "moment": "after", "api": "StdioClient", "nreq": 1, "req_api": "legacy",
      "concurrent": [{"behaviour": "exit_at", "k": 1}, {"behaviour": "well"}], "order": [1, 0], "send_order": [0, 1]},
@@ -304,17 +324,17 @@ class Scenarios(Suite):
     def cases(self, ctx, budget):
         rng = ctx.sub_rng("c16", budget)
         if budget == "quick":
-            full = product(H.APIS) + backlog_product() + reuse_product() + hardening_product() + status_product() + concurrent_product()
+            full = product(H.APIS) + backlog_product() + reuse_product() + hardening_product() + status_product() + stderr_product() + concurrent_product()
             out = [dict(c) for c in DIRECTED] + [dict(c) for c in rng.sample(full, 6)]
             out += entry_scan(8, 160)
             out += [BAD[0], BAD[4], BAD[8]]
         elif budget == "thorough":
             out = (product(H.APIS) + backlog_product(H.APIS) + reuse_product() + reuse_product(("StdioClient",), (3,))
-                   + hardening_product() + status_product() + concurrent_product()
+                   + hardening_product() + status_product() + stderr_product() + concurrent_product()
                    + entry_scan(2, 200) + entry_scan(8, 160, H.APIS[1:]) + BAD)
         else:  # search
             out = (product(["stdio_client"], nreq=1, junk=False) + backlog_product() + reuse_product(("StdioClient", "StdioTransport"))
-                   + hardening_product() + status_product() + concurrent_product()
+                   + hardening_product() + status_product() + stderr_product() + concurrent_product()
                    + entry_scan(4, 160) + BAD[:4])
         for i, c in enumerate(out):
             if "bad" not in c:
@@ -336,7 +356,9 @@ class Scenarios(Suite):
         if case.get("concurrent"):
             return {"m": "shutdown", "path": case["path"], "concurrent": case["concurrent"]}
         if "self_exit" in case:
-            d["behaviour"], d["k"] = "exit_at", 0            # it is gone when the exit begins
+            # it answers what it was asked (if it is a child that answers) and is gone when the exit begins
+            answered = case.get("nreq", 1) if (case["moment"] == "after" and H.answers(case, 1)) else 0
+            d["behaviour"], d["k"] = "exit_at", 2 * answered
         if "term_delay" in case and case["behaviour"] == "well":
             d["behaviour"] = "slow_term"
             d["term_delay_ms"] = int(case["term_delay"] * 1000)
@@ -458,14 +480,14 @@ class Scenarios(Suite):
         if "on_term" in case:
             b += "+exit%d-on-term" % case["on_term"]
         if "self_exit" in case:
-            b += "+self-exit%d" % case["self_exit"][1]
+            b += "+self-exit%d" % case["self_exit"]
         if "code" in case:
             b += "+code%d" % case["code"]
         if case["moment"] == "entry":
             return f"{b}/{case['path']}/entry-{'cut' if not o['entered'] else 'body'}/{case.get('api')}"
         if case["behaviour"] == "close_stdout":
             b += "-" + case.get("linger", "eof") + ("@%d" % case["close_after"] if case.get("close_after") else "")
-        flags = "".join("+" + k for k in ("chatty", "falsy_result", "term_delay", "env", "stderr", "hostile_args", "nested", "legacy",
+        flags = "".join("+" + k for k in ("stderr_flood", "chatty", "falsy_result", "term_delay", "env", "stderr", "hostile_args", "nested", "legacy",
                                           "exc_text", "req_id", "empty_x", "backlog_bytes") if case.get(k) is not None)
         if case.get("backlog", 0) > 95:
             flags += "+queue-full"
@@ -496,7 +518,7 @@ class Scenarios(Suite):
                                order=[ren[i] for i in case.get("order", []) if i in ren],
                                send_order=[ren[i] for i in case.get("send_order", []) if i in ren])
             return
-        for k in ("on_term", "self_exit", "code"):
+        for k in ("on_term", "self_exit", "code", "stderr_flood"):
             if k in case:
                 yield {a: b for a, b in case.items() if a != k}
         for k in ("chatty", "falsy_result", "env", "stderr", "hostile_args", "legacy", "exc_text", "req_id", "empty_x", "backlog_bytes"):
